@@ -44,6 +44,8 @@ func main() {
 		cmdReplay(os.Args[2:])
 	case "random":
 		cmdRandom(os.Args[2:])
+	case "bigprobe":
+		cmdBigProbe(os.Args[2:])
 	default:
 		os.Exit(2)
 	}
